@@ -27,9 +27,13 @@ MCView == <<core, ops>>
 Sym == Permutations(Vals)
 
 \* vacuity probes: each must be VIOLATED (reachability of the interesting situations)
-NeverEvicted == \A a \in VS : ~(val[a].st = "active" /\ val[a].exitB # None /\ val[a].offB # None)
+NeverEvicted == \A a \in VS : ~(/\ val[a].st = "active" /\ val[a].offB # None /\ block % E = 0 /\ block % EvictInterval = 0
+                                 /\ block > val[a].offB + EvictThreshold /\ val[a].exitB = block + E)
 NeverRenewedWithDelegation == \A a \in VS : ~(val[a].st = "active" /\ agg[a].lv > 0 /\ block > val[a].start)
 NeverCooldownPaid == ~(res.op = "WithdrawStake" /\ res.ok /\ res.a \in VS /\ val[res.a].st = "exit" /\ res.amt > 0 /\ val[res.a].cd = 0 /\ val[res.a].exitB # None)
 NeverDelegationWithdrawnAfterLock == ~(res.op = "WithdrawDelegation" /\ res.ok /\ res.amt > 0 /\ val[del[res.d].v].st = "active" /\ del[res.d].last # None)
+\* an eviction check at a height below the threshold finds a validator offline (it must NOT be evicted there)
+NeverOfflineAtEarlyCheck == ~(block > 0 /\ block % EvictInterval = 0 /\ block % E = 0 /\ block < EvictThreshold
+                              /\ \E a \in VS : val[a].st = "active" /\ val[a].offB # None /\ val[a].exitB = None /\ val[a].offB < block)
 NeverEmptied == ~(res.op = "Block" /\ aL.size = 0 /\ \E a \in VS : val[a].st = "exit" /\ val[a].exitB # None)
 ====
